@@ -192,6 +192,12 @@ class World:
                 ld = ld[0]
             self.Y[tag] = type(tag, (y.YAMLObject,), {'yaml_tag': self.key['ctor'][tag], 'yaml_loader': ld,
                                                      'yaml_dumper': self.cls[d]})
+        elif kind == 'ysub':
+            _, tag, lds, d = op
+            ld = [self.cls[x] for x in lds]
+            if len(ld) == 1:
+                ld = ld[0]
+            self.Y['sub' + tag] = type('Sub' + tag, (self.Y[tag],), {'yaml_loader': ld, 'yaml_dumper': self.cls[d]})
         else:
             raise ValueError(op)
 
@@ -433,7 +439,7 @@ def main(tier, replay=None):
                 key = {'config': name, 'what': m['what'], 'ops': [op[0] + ':' + str(op[1]) for op in b['hist']]}
                 v.violation(key, b)
         os.remove(r.dump)
-    for a in ['Add', 'DefineSub', 'ModuleAdd', 'YObj']:
+    for a in ['Add', 'DefineSub', 'ModuleAdd', 'YObj', 'YSub']:
         if actions.get(a, 0) == 0:
             raise SystemExit('machinery failure: action %s never fired (vacuous run)' % a)
     v.cov = {'states': states, 'transitions': transitions, 'traces_validated_against_impl': traces,
